@@ -134,6 +134,122 @@ func to16(ip []byte) []byte {
 	return nil
 }
 
+// ---------- the declarative IP-literal grammar (ZV.C09.IPLiteral: DottedQuad / V6Spec) ----------
+// Written from the Lean specification (lean/ZV/Proofs/C09IPv4.lean, C09IPv6.lean, C09IP.lean),
+// not from net/netip: strings.Split over '.' / ':' / "::" and per-field predicates.
+
+// IsOctet: 1-3 decimal digits, no leading zero unless "0", value <= 255
+func refOctet(f string) (byte, bool) {
+	if len(f) < 1 || len(f) > 3 {
+		return 0, false
+	}
+	v := 0
+	for i := 0; i < len(f); i++ {
+		if f[i] < '0' || f[i] > '9' {
+			return 0, false
+		}
+		v = v*10 + int(f[i]-'0')
+	}
+	if (len(f) > 1 && f[0] == '0') || v > 255 {
+		return 0, false
+	}
+	return byte(v), true
+}
+
+// DottedQuad
+func refQuad(s string) ([]byte, bool) {
+	parts := strings.Split(s, ".")
+	if len(parts) != 4 {
+		return nil, false
+	}
+	out := make([]byte, 0, 4)
+	for _, p := range parts {
+		b, ok := refOctet(p)
+		if !ok {
+			return nil, false
+		}
+		out = append(out, b)
+	}
+	return out, true
+}
+
+// IsHexGroup: 1-4 hex digits
+func refGroup(g string) (int, bool) {
+	if len(g) < 1 || len(g) > 4 {
+		return 0, false
+	}
+	v := 0
+	for i := 0; i < len(g); i++ {
+		c := g[i]
+		switch {
+		case c >= '0' && c <= '9':
+			v = v*16 + int(c-'0')
+		case c >= 'a' && c <= 'f':
+			v = v*16 + int(c-'a') + 10
+		case c >= 'A' && c <= 'F':
+			v = v*16 + int(c-'A') + 10
+		default:
+			return 0, false
+		}
+	}
+	return v, true
+}
+
+// V6Seq: non-empty ':'-separated groups, the last element optionally a dotted quad
+func refSeq(s string, allowQuad bool) ([]byte, bool) {
+	parts := strings.Split(s, ":")
+	var out []byte
+	for i, p := range parts {
+		if allowQuad && i == len(parts)-1 && strings.Contains(p, ".") {
+			q, ok := refQuad(p)
+			if !ok {
+				return nil, false
+			}
+			out = append(out, q...)
+			continue
+		}
+		v, ok := refGroup(p)
+		if !ok {
+			return nil, false
+		}
+		out = append(out, byte(v>>8), byte(v))
+	}
+	return out, true
+}
+
+// IPLiteral: the 16 bytes denoted by s, or false
+func refIPLiteral(s string) ([]byte, bool) {
+	if q, ok := refQuad(s); ok {
+		return to16(q), true
+	}
+	if i := strings.Index(s, "::"); i >= 0 {
+		l, r := s[:i], s[i+2:]
+		var L, R []byte
+		ok := true
+		if l != "" {
+			if L, ok = refSeq(l, false); !ok {
+				return nil, false
+			}
+		}
+		if r != "" {
+			if R, ok = refSeq(r, true); !ok {
+				return nil, false
+			}
+		}
+		if len(L)+len(R) >= 16 {
+			return nil, false
+		}
+		out := append([]byte{}, L...)
+		out = append(out, make([]byte, 16-len(L)-len(R))...)
+		return append(out, R...), true
+	}
+	b, ok := refSeq(s, true)
+	if !ok || len(b) != 16 {
+		return nil, false
+	}
+	return b, true
+}
+
 type certSpec struct {
 	oids [][]int
 	dns  []string
@@ -215,14 +331,27 @@ func exec(line string) zv.Out {
 	case "ip":
 		in := string(zv.UnHex(f[2]))
 		ip := net.ParseIP(in)
+		// T3: the declarative grammar (proved equal to the Lean model of net.ParseIP) on the real function
+		viol := ""
+		ref, isLit := refIPLiteral(in)
+		if isLit != (ip != nil) || (isLit && !bytes.Equal(ref, []byte(ip.To16()))) {
+			viol = fmt.Sprintf("net.ParseIP(%q) = %v, the IP-literal grammar gives %v (literal=%v)", in, []byte(ip), ref, isLit)
+		}
 		if ip == nil {
-			return zv.Out{Go: "nil", Tags: []string{"ip", "ip-nil"}}
+			return zv.Out{Go: "nil", Viol: viol, Tags: []string{"ip", "ip-nil"}}
 		}
 		tag := "ip-v6"
 		if ip.To4() != nil {
 			tag = "ip-v4-or-mapped"
 		}
-		return zv.Out{Go: zv.Hex([]byte(ip)), Tags: []string{"ip", tag}}
+		tags := []string{"ip", tag}
+		if strings.Contains(in, "::") {
+			tags = append(tags, "ip-ellipsis")
+		}
+		if strings.Contains(in, ":") && strings.Contains(in, ".") {
+			tags = append(tags, "ip-embedded-v4")
+		}
+		return zv.Out{Go: zv.Hex([]byte(ip)), Viol: viol, Tags: tags}
 	case "mh":
 		p := string(zv.UnHex(f[2]))
 		hosts := unHexList(f[3])
@@ -673,5 +802,5 @@ func init() {
 			"mh: every pattern x host pair over S with both lengths <= 3 (one line per pattern, 1111 hosts each), every pattern of length 4 (thorough: 4-5) with hosts derived from it, random multi-label names with mutated hosts; " +
 			"ip: net.ParseIP vs the Lean parseIP on every string over {1,0,f,':','.'} up to length 7/9, every string over S up to length 4, random IPv4/IPv6/IPv4-mapped spellings with mutations; " +
 			"vh: VerifyHostname on hand-built certificates: every pattern over S of length <= 2 as the only DNS SAN / as CN without SAN / as second SAN, against every host over S up to length 4/5, plus random certificates (0-3 DNS SANs, 0-3 IP SANs incl. 4-byte/16-byte/truncated, CN, extension lists with and without the SAN OID) with derived DNS hosts and IPv4/IPv6/IPv4-mapped/bracketed literals. " +
-			"A case is one line (a pattern or certificate with its batch of hosts); T3 = independent label-wise matcher / byte-wise lowering / rule evaluation in the harness."})
+			"A case is one line (a pattern or certificate with its batch of hosts); T3 = independent label-wise matcher / byte-wise lowering / rule evaluation in the harness; for ip lines T3 = the declarative IP-literal grammar (dotted quad / eight groups / one \"::\" / trailing dotted quad; the Lean spec IPLiteral re-written with strings.Split) evaluated against net.ParseIP, result bytes included."})
 }
